@@ -73,6 +73,27 @@ class VLoop(asyncio.SelectorEventLoop):
         self.run_forever()          # one iteration: due timers move to ready and run
         self.settle()
 
+    def fire_earliest(self):
+        """fire exactly ONE timer, the earliest (even if others are due as well), then settle"""
+        self.settle()
+        live = [h for h in self._scheduled if not h._cancelled]
+        if not live:
+            raise Deadlock("no timer to fire")
+        h = min(live, key=lambda x: x._when)
+        rest = [x for x in self._scheduled if x is not h]
+        self._vt = max(self._vt, h._when)
+        self._scheduled = [h]
+        self.call_soon(self.stop)
+        try:
+            self.run_forever()
+        finally:
+            for x in self._scheduled:
+                rest.append(x)
+            heapq.heapify(rest)
+            self._scheduled = rest
+        self.settle()
+        return h._when
+
     def tick(self):
         nd = self.next_deadline()
         if nd is None:
